@@ -4,7 +4,7 @@ ENGINES = [
     {
         "name": "symx",
         "path": "/verif/symx",
-        "serves_properties": ["C01", "C02", "C03", "C04", "C05", "C06", "C07", "C08", "C12", "C13", "C16", "C17", "C18"],
+        "serves_properties": ["C01", "C02", "C03", "C04", "C05", "C06", "C07", "C08", "C09", "C12", "C13", "C16", "C17", "C18"],
         "kind_free_text": "own symbolic executor: geoh5py's real functions run under CPython with the module-global "
         "`np` (and, for file paths, `h5py`) rebound to z3-backed models; re-execution DFS forks on symbolic "
         "branches; obligations are z3 validity queries; counterexamples are replayed on real numpy/h5py",
@@ -228,6 +228,22 @@ CLAIMED["C02"] = _symx(
 )
 CLAIMED["C02"]["design_ref"] = "DESIGN.md section 12.13"
 
+CLAIMED["C09"] = _symx(
+    "C09",
+    "bounded symbolic execution of one real API operation (chosen symbolically from 15, numeric payloads and removal indices "
+    "symbolic) on a target object in a real HDF5 file; node-by-node digest of the unrelated entities (attributes and datasets read "
+    "with real h5py, symbolic payloads from the proxy's side store) before and after; z3 validity of term-wise identity; "
+    "counterexamples replayed on real numpy/h5py",
+    "bounded symbolic model checking, partial: for one step from {open and close only, set vertices, set values, rename, move, copy, "
+    "remove a vertex, remove data, add data, property-group membership, remove object, set flags, set cells, remove a cell, modify "
+    "values in place} on a point set or curve with symbolic state, every HDF5 node of the unrelated group, object (symbolic "
+    "vertices), float (symbolic values) / text / referenced data, their data and group types, the unrelated property group and the "
+    "project header attributes is identical before and after (same nodes, same attributes, same datasets). Other reachable "
+    "states, other entity classes and byte-level identity of the file are outside.",
+    _SYMX_NOTE + "; A-H5: symbolic payloads are kept beside the real HDF5 file by a proxy and handed back unchanged",
+)
+CLAIMED["C09"]["design_ref"] = "DESIGN.md section 12.14"
+
 _XH_NOTE = (
     "trusted: CrossHair 0.0.110 (symbolic execution of CPython code with z3) and its models of builtins; the harness "
     "functions call the real geoh5py kernels directly (no translation); holds only within the value bounds in the evidence"
@@ -291,8 +307,6 @@ CLAIMED["C06"] = {
 _NOT_BUILT = "check not built yet (planned, see DESIGN.md section 5)"
 
 NOT_APPLICABLE = {
-    "C09": "frame property over all reachable workspace states observed as per-node digests of an HDF5 file; the only "
-    "arithmetic frame condition (other holes' concatenated rows) is decided in C04",
     "C10": "immutability is delivered by h5py's read-only handle and the mode string; quantifier is over programs "
     "(~150 entry points), nothing value-level to solve",
     "C11": "handle lifecycle and exception-abort points of a with-block are h5py/OS behaviour",
